@@ -4,7 +4,7 @@
    Definitions only. *)
 From Coq Require Import String.
 From Coq Require Import List Strings.Byte NArith ZArith Bool Arith.
-Require Import Bytes Show Res Tables Chunk TrailerKeys Range HeaderScan ReqHead.
+Require Import Bytes Show Res Tables Chunk TrailerKeys Range HeaderScan ReqHead RespFrame.
 Import ListNotations.
 Local Open Scope nat_scope.
 
@@ -47,7 +47,47 @@ Definition rframe_step (st : Z * bool) (kv : bs * bs) : Z * bool :=
   end.
 Definition rframe_of (fs : list (bs * bs)) : Z * bool := fold_left rframe_step fs ((-2)%Z, false).
 
-(* resp_head block: "OK http11 status contentLength consumed" | "MORE" | "BAD <why>" *)
+(* ---- connection persistence (parseHeaders, normalising mode: stored keys are canonical) ----
+   ext.HasHeaderValue: comma separated list, elements stripped of spaces, compared ignoring ASCII case *)
+Fixpoint has_header_value (fuel : nat) (s x : bs) : bool :=
+  match fuel with
+  | O => false
+  | S f =>
+      match s with
+      | [] => false
+      | _ => match index_byte x2c s with
+             | None => ci_compare (trim s) x
+             | Some n => ci_compare (trim (firstn n s)) x || has_header_value f (skipn (S n) s) x
+             end
+      end
+  end.
+Definition has_value (s x : bs) : bool := has_header_value (S (length s)) s x.
+
+(* the close bit and the first Connection value kept in h.h after one field *)
+Definition rconn_step (st : bool * option bs) (kv : bs * bs) : bool * option bs :=
+  let '(cl, first) := st in
+  let '(k, v) := kv in
+  match k with
+  | [] => st
+  | _ =>
+      if ci_compare k bytestr_StrConnection then
+        if bs_eqb v bytestr_StrClose then (true, first)
+        else (false, match first with None => Some v | Some _ => first end)
+      else st
+  end.
+Definition rconn_of (fs : list (bs * bs)) : bool * option bs := fold_left rconn_step fs (false, None).
+
+(* ResponseHeader.ConnectionClose() after a successful parseHeaders *)
+Definition resp_close (h11 : bool) (status clen : Z) (fs : list (bs * bs)) : bool :=
+  let '(cl, first) := rconn_of fs in
+  let stored := match first with Some v => v | None => [] end in
+  let keep := has_value stored bytestr_StrKeepAlive in
+  (* ConnectionUpgrade peeks through Peek("Connection"): "close" when the bit is set *)
+  let upgrade := if cl then false else keep in
+  let cl1 := if Z.eqb clen (-2) && negb upgrade && negb (must_skip_content_length status) then true else cl in
+  if negb h11 && negb cl1 then negb keep else cl1.
+
+(* resp_head block: "OK http11 status contentLength consumed close" | "MORE" | "BAD <why>" *)
 Definition resp_head (a : list bs) : bs :=
   let buf := nth 0 a [] in
   match parse_status_line buf with
@@ -62,6 +102,7 @@ Definition resp_head (a : list bs) : bs :=
           if e then B "BAD length"
           else (* ResponseHeader.StatusCode() answers 200 for a stored 0 *)
             B "OK " ++ show_bool h11 ++ B " " ++ show_Z (if Z.eqb code 0 then 200%Z else code) ++ B " " ++ show_Z clen ++
-            B " " ++ show_nat (length buf - length rest')
+            B " " ++ show_nat (length buf - length rest') ++ B " " ++
+            show_bool (resp_close h11 (if Z.eqb code 0 then 200%Z else code) clen fs)
       end
   end.
